@@ -326,9 +326,9 @@ def abort_matrix_families(seed, quick):
     follow the aborts -- 'a failed run of configuration O changes a later run of O''."""
     rng = random.Random(seed * 17 + 3)
     structs = [{"item": "1AJJ.pdb", "window": [rng.randint(0, 20), 12], "waters": 10,
-                "damage": [[rng.randint(0, 11), "drop_tail"]]},
-               {"item": "1BX8.pdb", "window": [rng.randint(0, 35), 12], "waters": 12}]
+                "damage": [[rng.randint(0, 11), "drop_tail"]]}]
     if not quick:
+        structs += [{"item": "1BX8.pdb", "window": [rng.randint(0, 35), 12], "waters": 12}]
         structs += [{"item": "1K1I.pdb", "window": [rng.randint(0, 150), 14], "waters": 14,
                      "damage": [[3, "drop_tail"], [9, "keep_backbone"]]},
                     {"item": "1US0.pdb", "window": [rng.randint(0, 280), 12], "waters": 12,
@@ -758,13 +758,15 @@ def job_abort_sweep(job, scratch):
     obs = []
     ops = []
     spans = [sp for sp in fin["spans"] if sp[2] - sp[1] >= 3]
-    # one instant in the middle of each stage, and one near its end
-    instants = []
-    for name, a, b in spans:
-        instants.append((name, (a + b) // 2))
-        if b - a > 40:
-            instants.append((name, b - 2))
-    for k, (name, at) in enumerate(instants[: job.get("max_aborts", 60)]):
+    # one instant in the middle of EVERY stage (early and late stages alike); instants near
+    # the end of long stages are added only as far as the budget allows
+    instants = [(name, (a + b) // 2) for name, a, b in spans]
+    extra = [(name, b - 2) for name, a, b in spans if b - a > 40]
+    room = max(0, job.get("max_aborts", 60) - len(instants))
+    if room and extra:
+        step = max(1, len(extra) // room)
+        instants += extra[(job.get("seed", 0) % step)::step][:room]
+    for k, (name, at) in enumerate(instants):
         exc = ("MemoryError", "KeyboardInterrupt", "RecursionError", "ValueError")[k % 4]
         f = {"k": "exc", "event": "PY_START", "at": at, "exc": exc}
         scdir = os.path.join(scratch, f"a{k}")
@@ -1106,6 +1108,7 @@ def main(tier, seed):
 
     violations = []
     replay_paths = []
+    unconfirmed_paths = set()
     with driver.ServerPool(servers, job_timeout=600) as pool_srv:
         results, skipped = pool_srv.run(jobs_by_server, deadline=deadline, on_result=on_result)
         # ---- reference model: all variants must agree
@@ -1276,7 +1279,8 @@ def main(tier, seed):
             # depends on object addresses may need a different heap offset there: find one
             # under which it reproduces and store it in the file.
             doc["reproducibility"] = "not confirmed in the canonical replay layout"
-            for wj in (0, 50_000, 200_000, 7_000, 1_000_000, 333_000, 20_000, 600_000):
+            for wj in (0, 50_000, 200_000, 7_000, 1_000_000, 333_000, 20_000, 600_000, 3_000,
+                       120_000, 450_000, 2_000_000, 80_000, 15_000):
                 doc["world_junk"] = wj
                 try:
                     if replay(doc, quiet=True) == 1:
@@ -1285,14 +1289,33 @@ def main(tier, seed):
                 except driver.HarnessError:
                     break
             path = evidence.write_replay("C11", h["seed"], doc)
-            replay_paths.append(path)
+            if doc["reproducibility"].startswith("confirmed"):
+                replay_paths.insert(0, path)
+            else:
+                replay_paths.append(path)
+                unconfirmed_paths.add(path)
             violations.append(bad)
         for n, v in enumerate(v for v in violations if v["kind"] == "fresh-process-nondeterminism"):
-            if n < 2:
-                path = evidence.write_replay("C11", seed, {
-                    "kind": v["kind"], "ops": [{"op": "run", "cfg": v["cfg"]}],
-                    "variants": v["variants"]}, suffix=f"-fresh{n}")
+            if n < 3:
+                doc = {"kind": v["kind"], "ops": [{"op": "run", "cfg": v["cfg"]}],
+                       "variants": v["variants"], "property": "C11",
+                       "reproducibility": "not confirmed in the canonical replay layout"}
+                # three fresh worlds (hash seed / allocator variants) with seeded heap offsets:
+                # find offsets under which the variants disagree in the canonical layout
+                for vj in ([0, 60_000, 400_000], [0, 7_000, 1_500_000], [150_000, 30_000, 0],
+                           [3_000, 900_000, 20_000], [500_000, 0, 80_000], [0, 0, 0],
+                           [10_000, 250_000, 2_000_000], [40_000, 120_000, 700_000]):
+                    doc["variant_junk"] = vj
+                    try:
+                        if replay(doc, quiet=True) == 1:
+                            doc["reproducibility"] = "confirmed in the canonical replay layout"
+                            break
+                    except driver.HarnessError:
+                        break
+                path = evidence.write_replay("C11", seed, doc, suffix=f"-fresh{n}")
                 replay_paths.append(path)
+                if not doc["reproducibility"].startswith("confirmed"):
+                    unconfirmed_paths.add(path)
 
     wall = time.monotonic() - t0
     nskip = sum(len(v) for v in skipped.values())
@@ -1351,6 +1374,8 @@ def main(tier, seed):
     if harness_errors:
         print("HARNESS-ERROR " + json.dumps(harness_errors[0])[:2000])
     if violations:
+        # replays that were confirmed to reproduce in the canonical layout come first
+        replay_paths.sort(key=lambda p: p in unconfirmed_paths)
         for p in replay_paths:
             print(f"VIOLATION property=C11 replay={p}")
         return 1
@@ -1371,9 +1396,11 @@ def replay(doc, quiet=False):
     if doc["kind"] == "fresh-process-nondeterminism":
         specs = [("A", {"PYTHONHASHSEED": "0"}, 1), ("B", {"PYTHONHASHSEED": "4242"}, 1),
                  ("C", {"PYTHONHASHSEED": "77", "PYTHONMALLOC": "malloc"}, 1)]
+        junks = doc.get("variant_junk") or [0, 60_000, 400_000]
         with driver.ServerPool(specs) as pool:
-            res, _ = pool.run({n: [{"id": "r", "kind": "c11.ref", "cfg": ops[0]["cfg"]}]
-                               for n, _, _ in specs})
+            res, _ = pool.run({n: [{"id": "r", "kind": "c11.ref", "cfg": ops[0]["cfg"],
+                                    "junk": junks[i % len(junks)], "junk_free": bool(i % 2)}]
+                               for i, (n, _, _) in enumerate(specs)})
         vals = {n: (res[n]["r"]["result"]["outcome"], res[n]["r"]["result"]["sha"])
                 for n in res if "result" in res[n].get("r", {})}
         say("replay: " + json.dumps(vals))
